@@ -18,6 +18,10 @@ RULES = {
               "planning and publish",
     "C04.3b": "rollback discipline: every Err return reachable from the first effect passes a store of the saved original offset into *current_offset and the unlock of every "
               "block allocated by the batch; exits whose error cannot occur are frozen table rows with their reason",
+    "C04.3d": "rollback hides every planned entry: every rollback store of the saved offset is preceded on all paths by a loop over the write plan (in the same body, or in a helper "
+              "all of whose paths run such a loop) whose every iteration calls Block::zero_range(plan.block, plan.offset, PREFIX_META_SIZE): no branch inside the loop may skip the "
+              "zeroing of an element. A header that stays on disk behind the restored offset is decoded by the recovery scan (and by the next rotation's readers) as an entry "
+              "that was never acknowledged",
     "C04.3c": "on every rollback path on which a successor block was installed, the original block is re-installed",
     "C04.4": "storage errors propagate (ED): the io::Result of positional writes (write_at / write_all_at) in the storage layer is not discarded",
     "C04.5": "the header-length guard exists in both encoders and rejects before anything is written (shared with C16.1)",
@@ -403,6 +407,113 @@ def check_rollback(ctx, facts):
                                 "the io_uring helper rolls back through `&mut u64` only; it does not receive the block guard, so a rotated batch cannot be undone")
 
 
+def _zero_loops(facts, b):
+    """(call site, loop, problems) for every Block::zero_range call of body b"""
+    out = []
+    P = facts.const_val("config::PREFIX_META_SIZE")
+    for z in b.calls(re.compile(r"block::Block::zero_range$")):
+        hb, L = z.bb, None
+        for _ in range(16):
+            L = b.natural_loop(hb)
+            if L and z.bb in L:
+                break
+            L = None
+            if b.idom.get(hb) is None or b.idom[hb] == hb:
+                break
+            hb = b.idom[hb]
+        problems = []
+        if L is None:
+            problems.append("not-in-a-loop-over-the-plan")
+        else:
+            t = b.term(hb)
+            if not (t["k"] == "call" and re.search(r"Iterator>::next$|Iterator::next$", strip_generics(t.get("callee") or "")) and "(wal::block::Block, u64, usize)" in b.local_ty(t["dest"]["l"])):
+                problems.append("loop-does-not-iterate-the-plan")
+            # bypass: header reachable again from inside the loop without passing the zeroing call
+            inner = [x for x in b.succ[hb] if x in L]
+            seen, work = set(), list(inner)
+            while work:
+                n = work.pop()
+                if n in seen or n not in L or n == z.bb:
+                    continue
+                seen.add(n)
+                if hb in b.succ[n]:
+                    problems.append("zeroing-skipped-on-a-branch")
+                    break
+                work.extend(b.succ[n])
+            a = [show(strip_refs(expr(b, x)), 8) for x in z.node["args"]]
+            if not (a[0].endswith(".0") and a[1].endswith(".1") and "next(" in a[0] and "next(" in a[1]):
+                problems.append("zeroes-something-else-than-the-planned-header")
+            if fmtfeat.const_eval(strip_refs(expr(b, z.node["args"][2]))) != P:
+                problems.append("zeroes-less-than-a-header")
+        out.append((z, L, problems, hb))
+    return out
+
+
+def check_rollback_zeroing(ctx, facts):
+    bw = facts.body("writer::Writer::batch_write")
+    ur = facts.body("writer::Writer::submit_batch_via_io_uring")
+    # helpers: bodies (other than the two) that contain a zeroing loop on all paths
+    helper_ok = {}
+    for name, hb_ in facts.bodies.items():
+        if hb_ is bw or hb_ is ur or hb_.kind == "closure":
+            continue
+        zl = _zero_loops(facts, hb_) if hb_.calls(re.compile(r"block::Block::zero_range$")) else []
+        if not zl:
+            continue
+        ctx.saw_body(hb_)
+        good = [(z, hb) for z, L, pr, hb in zl if not pr and L is not None]
+        # the loop (its header) is on every path; zero iterations = empty plan = nothing to zero
+        must = any(hb_.must_pass([0], hb_.return_blocks(), [hb]) for z, hb in good)
+        helper_ok[strip_generics(name)] = (must and len(good) == len(zl), zl)
+    n = 0
+    for b in (bw, ur):
+        F = common.short_fn(b.name)
+        zl = _zero_loops(facts, b)
+        helper_calls = []
+        for c in b.calls():
+            k = strip_generics(c.node.get("callee") or "")
+            if k in helper_ok:
+                helper_calls.append((c, k))
+        wrote = set()
+        for w_ in b.calls(re.compile(r"block::Block::write$|::submit_and_wait$|::submit$")):
+            wrote |= b.reachable_after(w_.bb)
+        for s, k, sh in _offset_stores(b):
+            if k != "rollback":
+                continue
+            if s.bb not in wrote:
+                ctx.ok("C04.3d", F, "rollback before anything was written or submitted: nothing to zero", b.relfile, s.line, trivial=True)
+                continue
+            n += 1
+            cands = []
+            for z, L, pr, hb in zl:
+                if L is None:
+                    if b.dominates(z.bb, s.bb):
+                        cands.append((z, pr))
+                elif s.bb not in L and b.dominates(hb, s.bb):
+                    cands.append((z, pr))
+            hc = [(c, kk) for c, kk in helper_calls if b.dominates(c.bb, s.bb)]
+            if not cands and not hc:
+                ctx.violate("C04.3d", F, "rollback-without-zeroing", b.relfile, s.line,
+                            "the offset is restored but the headers written by the failed batch are not zeroed first: they are decoded as entries by the recovery scan")
+                continue
+            bad = [(z, pr) for z, pr in cands if pr]
+            badh = [(c, kk) for c, kk in hc if not helper_ok[kk][0]]
+            if bad or badh:
+                if bad:
+                    z, pr = bad[0]
+                    line, why = z.line, pr
+                else:
+                    c, kk = badh[0]
+                    why = sorted({x for z, L, pr, hb in helper_ok[kk][1] for x in pr}) or ["helper-does-not-zero-on-all-paths"]
+                    line = helper_ok[kk][1][0][0].line
+                ctx.violate("C04.3d", F, "rollback-zeroing-incomplete:" + ",".join(why), b.relfile, line,
+                            "the rollback does not zero the header of every planned entry (%s): a header left behind the restored offset is taken for an entry after a restart, "
+                            "or when the next batch overwrites only the zeroed one" % ", ".join(why))
+            else:
+                ctx.ok("C04.3d", F, "rollback is preceded by the zeroing of every planned header", b.relfile, s.line)
+    ctx.floor("C04.3d", "rollback stores", n, 3)
+
+
 def _is_restore(b, install_site):
     st = install_site.node
     src, _, _ = origins(b, st["rv"]["op"])
@@ -500,6 +611,7 @@ def run(ctx):
     check_rejections(ctx, facts)
     check_publish(ctx, facts)
     check_rollback(ctx, facts)
+    check_rollback_zeroing(ctx, facts)
     check_error_discipline(ctx, facts)
     check_guard(ctx, facts)
     check_batch_flag(ctx, facts)
